@@ -8,7 +8,7 @@ from ..ref import bms as ref_bms
 from ..ref.common import first_mismatch, ftol, near
 from ..values import NAN, eqv, norm
 from .files import GameIO, game_io
-from .files_sm import on_grid, snap_frac, timeline, active, all_on_measure_lines
+from .files_sm import on_grid, snap_frac, timeline, active, all_on_measure_lines, exact_slack
 
 
 from .files_sm import GRID  # noqa: E402
@@ -206,7 +206,7 @@ class BMSIO(GameIO):
         def tol(t):
             kk = active(tl, t)
             rel = (t - tl[kk][0]) * tl[kk][1] / 60000.0
-            return 4 * ftol(t) if on_grid(rel, 1e-7) else (60000.0 / tl[kk][1]) / 192.0 + ftol(t)
+            return 4 * ftol(t) + exact_slack(tl, t) if on_grid(rel, 1e-7) else (60000.0 / tl[kk][1]) / 192.0 + ftol(t)
 
         def smp(x, y):
             return y.get("sample") not in known or x["sample"] == y["sample"]
